@@ -59,7 +59,7 @@ func (w *Worker) visibleSig(s *State, f *Frame) (sig OpSig, visible bool, enable
 	}
 	switch {
 	case n == modPrefix+"/util.CurrentTimeMillis" || n == modPrefix+"/util.CurrentTimeNano":
-		if ghostInt(s, "flag/threadclock") == 2 {
+		if m := ghostInt(s, "flag/threadclock"); m == 2 || (m == 3 && !clockFrozenFor(f)) {
 			return OpSig{kind: "clock"}, true, true
 		}
 		return OpSig{}, false, true
